@@ -499,10 +499,6 @@ func cmdCheck(args []string) int {
 	return 0
 }
 
-// tryReplay is overridden per function family in replay.go.
-func (e *Engine) tryReplay(id, fn, obl string, v *Verdict, rec map[string]any) (any, bool) {
-	return nil, false
-}
 
 func cmdReplay(args []string) int {
 	if len(args) < 1 {
